@@ -98,6 +98,11 @@ def encode_state(st, length=24, frac_style="default"):
     b[8] = (0x20 if st["turbo"] and tb in ("both", "b8") else 0) | (0x40 if st["indep_aux"] else 0) | (0x80 if st["follow_me"] else 0)
     b[9] = (0x10 if st["eco"] else 0) | (0x20 if st["purifier"] else 0) | (0x08 if st["aux_heat"] else 0)
     b[10] = (0x01 if st["sleep"] else 0) | (0x02 if st["turbo"] and tb in ("both", "b10") else 0) | (0x04 if st["fahrenheit"] else 0)
+    # functions this client does not model (cosy sleep, power saving, low-frequency fan / child sleep, natural wind,
+    # dry clean, and the two top bits of byte 9) may be active on the unit: set from the remote control
+    sp = st.get("spare") or {}
+    b[8] |= int(sp.get("8", sp.get(8, 0))) & 0x1B
+    b[9] |= int(sp.get("9", sp.get(9, 0))) & 0xC7
     b[11] = st["indoor_raw"] & 0xFF
     b[12] = st["outdoor_raw"] & 0xFF
     b[13] = alt | (0x20 if st["filter_alert"] else 0)
@@ -199,7 +204,9 @@ def build_b5(records, additional=None, count=None):
     for cid, val in records:
         out += bytes([cid & 0xFF, cid >> 8, len(val)]) + bytes(val)
     if additional is not None:
-        out += bytes([1 if additional else 0])    # followed by the message id, then the check byte
+        # the flag is a byte: any non-zero value announces a further page (True/False = 1/0)
+        out += bytes([additional & 0xFF if isinstance(additional, int) and not isinstance(additional, bool)
+                      else (1 if additional else 0)])    # followed by the message id, then the check byte
     return bytes(out)
 
 
